@@ -511,6 +511,9 @@ def r5_ducb(ck, repo, nf: NF):
     items, kinds, unrecorded = [], {}, 0
     want_init = "mod(len(self.rewards), self.n_arms)"
     for pth in enumerate_paths(cfg, cfg.entry, stops, max_paths=2000):
+        # paths that skip a loop over the arms entirely (zero arms) are not behaviours of a bandit with n_arms >= 1
+        if any(cfg.nodes[nid].kind == "for" and lab is False and not any(n2 == nid and l2 is True for n2, l2 in pth) for nid, lab in pth):
+            continue
         pe = PathEval(nfp, cfg, mi, q, {}).run(pth[:-1])
         rec = [v.canon() for _, k, v in pe.appended if k == "self.chosen_arms"]
         last = cfg.nodes[pth[-1][0]]
